@@ -93,25 +93,37 @@ pub fn wfail_slice_u16() {
     drop(owner);
 }
 
-/// exact-size iterator wrapper
-// @h wfail_iter_u16 props=C13 tier=thorough kind=bounded bound="len<=2" vars="v:SerIter over Vec<u16>, k<=len, partial, flush failure" fns="impls/iter.rs:_serialize_inner"
+/// exact-size iterator wrapper (a fresh wrapper per run: serializing consumes the iterator)
+// @h wfail_iter_u16 props=C13,C16 tier=quick kind=bounded bound="len<=2" vars="v:SerIter over Vec<u16>, k<=len, partial, flush failure" fns="impls/iter.rs:SerializeHelper<Zero>::_serialize_inner"
 #[kani::proof]
 #[kani::unwind(5)]
 pub fn wfail_iter_u16() {
     let owner = <Vec<u16>>::sym(2);
     {
-        let mut good = ArrSink::<32>::new();
-        let rg = ser_root(&SerIter::from(owner.iter()), &mut good);
-        assert!(rg.is_ok(), "[C01/ser.ok] serialization into an infallible sink succeeds");
-        let n = good.len;
-        let k: usize = kani::any();
-        kani::assume(k <= n);
-        let mut bad = FailingSink::<32>::new(k, kani::any(), false);
-        let rb = ser_root(&SerIter::from(owner.iter()), &mut bad);
-        assert!(rb.is_ok() == (k >= n), "[C13/never_ok] serialization never reports success when the writer failed");
-        core::mem::forget(rb);
+        wfail_body!(&SerIter::from(owner.iter()), 32);
     }
     drop(owner);
+}
+
+/// an iterator that yields one item more than it announces, on a writer that
+/// fails: whatever else is reported, it is never success
+// @h wfail_iter_lying props=C13,C16 tier=quick kind=bounded bound="announced=1, yields 2" vars="one announced and one extra item (symbolic), failure position k (any) within the bytes handed to the writer, partial chunk" fns="impls/iter.rs:SerializeHelper<Zero>::_serialize_inner"
+#[kani::proof]
+#[kani::unwind(6)]
+pub fn wfail_iter_lying() {
+    let items: [u16; 3] = kani::any();
+    let announced: usize = 1;
+    let k: usize = kani::any();
+    kani::assume(k <= 12);
+    let mut bad = FailingSink::<32>::new(k, kani::any(), false);
+    let it = crate::c16_slices::Lying { items: &items, next: 0, actual: announced + 1, announced };
+    let rb = ser_root(&SerIter::from(it), &mut bad);
+    if bad.failed {
+        assert!(rb.is_err(), "[C13/never_ok] serialization never reports success when the writer failed");
+    }
+    assert!(rb.is_err(), "[C16/lying] an iterator yielding more items than announced is an error");
+    core::mem::forget(rb);
+    kani::cover!(bad.failed, "[cover] writer failure reached");
 }
 
 /// `io::Write` sinks that shorten writes or return `Interrupted` receive
